@@ -439,3 +439,33 @@ package fzf
 //@   invariant fresh(slab) && unowned(slab, 0, cap(slab)) && len(slab) <= 131072
 //@   invariant sameArray(buf, slab) && buf.off + len(buf) == slab.off
 //@   invariant unowned(leftover, len(leftover), cap(leftover)) && fresh(leftover) && !sameArray(leftover, slab)
+
+// ---------------------------------------------------------------- chunk list
+//@ func Chunk.IsFull
+//@ property C06
+//@ requires c != nil
+//@ ensures result == (c.count == 100)
+
+//@ func ChunkList.lastChunk
+//@ property C06
+//@ requires cl != nil && len(cl.chunks) >= 1
+//@ ensures result == cl.chunks[len(cl.chunks) - 1]
+
+// push hands exactly the next free slot to the item builder and counts the item iff the builder accepted it.
+//@ func Chunk.push
+//@ property C06
+//@ requires c != nil && 0 <= c.count && c.count < 100
+//@ modifies c.count, c.items[c.count:c.count+1]
+//@ effect call trans requires true modifies arg0
+//@ ensures result ==> c.count == old(c.count) + 1
+//@ ensures !result ==> c.count == old(c.count)
+
+// Push writes only into the last chunk (which is not full) or into a chunk allocated by this very call:
+// chunks that are already full - the ones a snapshot shares - are never written again.
+//@ func ChunkList.Push
+//@ property C06
+//@ requires cl != nil && validChunks(cl.chunks) && cl.trans != nil
+//@ modifies cl.chunks, cl.chunks[len(cl.chunks):cap(cl.chunks)], cl.chunks[len(cl.chunks)-1].count, cl.chunks[len(cl.chunks)-1].items[cl.chunks[len(cl.chunks)-1].count:cl.chunks[len(cl.chunks)-1].count+1]
+//@ ensures len(cl.chunks) == old(len(cl.chunks)) || len(cl.chunks) == old(len(cl.chunks)) + 1
+//@ ensures forall(k, 0, old(len(cl.chunks)), cl.chunks[k] == old(cl.chunks)[k])
+//@ ensures len(cl.chunks) >= 1 && cl.chunks[len(cl.chunks)-1] != nil
